@@ -29,12 +29,18 @@ EXTENDS TreeBase
 IsBifurcating(g) == \A x \in Nodes(g) : Len(g.kids[x]) \in {0, 2}
 LeafTaxaDistinct(g) == /\ \A x \in Leaves(g) : g.tx[x] # 0
                        /\ \A x, y \in Leaves(g) : x # y => g.tx[x] # g.tx[y]
-\* what the property quantifies over: well-formed, fully bifurcating (also at the root), >= 2 leaves, one taxon per leaf
+\* an unrooted fully bifurcating tree is held with a trifurcating seed node (what reroot_at_node and an
+\* unrooted Newick string give): it is one of the rootings of the tree the property quantifies over
+IsBasalTrifurcation(g) == /\ Len(g.kids[g.seed]) = 3
+                          /\ \A x \in Nodes(g) \ {g.seed} : Len(g.kids[x]) \in {0, 2}
+\* what the property quantifies over: well-formed, fully bifurcating (bifurcating or trifurcating seed), >= 2
+\* leaves, one taxon per leaf
 TreeClass(g) == IF WFClause(g) # "ok" THEN "illformed:" \o WFClause(g)
                 ELSE IF g.n < 3 THEN "fewer_than_two_leaves"
-                ELSE IF ~IsBifurcating(g) THEN "not_bifurcating"
+                ELSE IF ~(IsBifurcating(g) \/ IsBasalTrifurcation(g)) THEN "not_bifurcating"
                 ELSE IF ~LeafTaxaDistinct(g) THEN "leaf_taxa"
                 ELSE "ok"
+RootingName(g) == IF Len(g.kids[g.seed]) = 3 THEN "basal_trifurcation" ELSE "bifurcating_root"
 
 \* nested shapes: <<>> a leaf, <<a, b>> an internal node; all bifurcating ordered shapes with L leaves
 RECURSIVE Shapes(_)
@@ -42,13 +48,24 @@ Shapes(L) == IF L = 1 THEN {<<>>}
              ELSE UNION {{<<a, b>> : a \in Shapes(i), b \in Shapes(L - i)} : i \in 1..(L - 1)}
 RECURSIVE ShapeSize(_)
 ShapeSize(s) == IF s = <<>> THEN 1 ELSE 1 + ShapeSize(s[1]) + ShapeSize(s[2])
+\* one representative per child order (up to ties): the larger subtree first, everywhere
+RECURSIVE LargerFirst(_)
+LargerFirst(s) == s = <<>> \/ (ShapeSize(s[1]) >= ShapeSize(s[2]) /\ LargerFirst(s[1]) /\ LargerFirst(s[2]))
 RECURSIVE ShapePar(_, _, _)
 ShapePar(s, p, me) == <<p>> \o (IF s = <<>> THEN <<>>
                                 ELSE ShapePar(s[1], me, me + 1) \o ShapePar(s[2], me, me + 1 + ShapeSize(s[1])))
 ShapeParents(s) == ShapePar(s, 0, 1)                   \* preorder parent array as in TreeBase
 BifParents(L) == {ShapeParents(s) : s \in Shapes(L)}
+BifParentsLargerFirst(L) == {ShapeParents(s) : s \in {u \in Shapes(L) : LargerFirst(u)}}
 \* graph form with taxa `taxa` on the leaves left to right
 BifTree(p, taxa) == MkTree(p, taxa, [i \in 1..Len(p) |-> -1], 1)
+\* parent array without the internal non-root node x (its children move up to its parent, in place)
+DropNode(p, x) == [i \in 1..(Len(p) - 1) |->
+                     LET old == IF i < x THEN i ELSE i + 1
+                         pp == IF p[old] = x THEN p[x] ELSE p[old]
+                     IN IF pp > x THEN pp - 1 ELSE pp]
+\* the basal-trifurcation forms of a bifurcating-root tree: one per internal child of the root
+BasalForms(p, taxa) == {BifTree(DropNode(p, x), taxa) : x \in {y \in 2..Len(p) : p[y] = 1 /\ \E z \in 1..Len(p) : p[z] = y}}
 
 \* re-rooting on the edge above x (x not the seed, parent of x not the seed); node ids persist,
 \* the id of the old root (which disappears) is re-used for the new root
@@ -108,15 +125,17 @@ MinCost(g, col, S) == IF g.n = 1 THEN 0 ELSE Min({InnerCost(g, col, a) : a \in I
 \* ------------------------------------------------------------------ the Fitch down pass
 \* ls: node -> sequence of state sets (one per character); a character beyond the end of a
 \* sequence is absent ({}), and absent in a parent if absent in a child (zip semantics)
-RECURSIVE Down(_, _, _, _)
+\* further children of a node are folded in one after the other (the code's "remaining children" loop)
+Combine(l, r) == LET i == l.s \cap r.s IN
+                 IF l.s = {} \/ r.s = {} THEN [s |-> {}, c |-> l.c + r.c]
+                 ELSE IF i # {} THEN [s |-> i, c |-> l.c + r.c]
+                 ELSE [s |-> l.s \cup r.s, c |-> l.c + r.c + 1]
+RECURSIVE Down(_, _, _, _), FoldKids(_, _, _, _, _, _)
+FoldKids(g, ls, j, x, k, acc) == IF k > Len(g.kids[x]) THEN acc
+                                 ELSE FoldKids(g, ls, j, x, k + 1, Combine(acc, Down(g, ls, j, g.kids[x][k])))
 Down(g, ls, j, x) ==
     IF IsLeaf(g, x) THEN [s |-> IF j <= Len(ls[x]) THEN ls[x][j] ELSE {}, c |-> 0]
-    ELSE LET l == Down(g, ls, j, g.kids[x][1])
-             r == Down(g, ls, j, g.kids[x][2])
-             i == l.s \cap r.s
-         IN IF l.s = {} \/ r.s = {} THEN [s |-> {}, c |-> l.c + r.c]
-            ELSE IF i # {} THEN [s |-> i, c |-> l.c + r.c]
-            ELSE [s |-> l.s \cup r.s, c |-> l.c + r.c + 1]
+    ELSE FoldKids(g, ls, j, x, 2, Down(g, ls, j, g.kids[x][1]))
 FitchScore(g, col) == Down(g, [x \in 1..g.n |-> IF IsLeaf(g, x) THEN <<col[g.tx[x]]>> ELSE <<>>], 1, g.seed).c
 FitchRootSet(g, col) == Down(g, [x \in 1..g.n |-> IF IsLeaf(g, x) THEN <<col[g.tx[x]]>> ELSE <<>>], 1, g.seed).s
 
